@@ -45,6 +45,10 @@ pub assume_specification<'a, K: Eq + std::hash::Hash + std::borrow::Borrow<Q>, V
             }
         };
 
+// Option::map_or: the default for None, the closure's own result for Some (the closure body is verified where it is written)
+pub assume_specification<T, U, F: FnOnce(T) -> U>[Option::<T>::map_or](opt: Option<T>, default: U, f: F) -> (r: U)
+    requires opt.is_some() ==> f.requires((opt.unwrap(),)),
+    ensures match opt { None => r == default, Some(x) => f.ensures((x,), r) };
 // mirrors vstd's own specification of Entry::or_insert (std_specs/hash.rs), with the default produced by the closure
 pub assume_specification<'a, K, V, A: std::alloc::Allocator, F: FnOnce() -> V>
     [std::collections::hash_map::Entry::<'a, K, V, A>::or_insert_with](entry: std::collections::hash_map::Entry<'a, K, V, A>, default: F) -> (value: &'a mut V)
